@@ -4,6 +4,9 @@ and a virtual clock.  Nothing in the repository is edited: all observation point
 or class attributes replaced from here (see DESIGN.md 1.1)."""
 import collections
 import ipaddress
+import os
+import signal as _signal
+import threading
 import logging
 import random
 import socket as _socket
@@ -63,6 +66,7 @@ class FakeKernel:
         self.requests = []       # every request: dict(idx, raw, msg|None, error, applied)
         self.fault_plan = {}     # request index -> ('errno', -N) | ('oserror', N)
         self.port_ids_like_linux = True
+        self.multipart_replies = True      # every third reply datagram starts with an NLMSG_NOOP message
         self.socket_faults = {}  # request index -> errno: creating the netlink socket for that request fails with OSError
         self.fault_types = {}    # request name (NEWSA, DELSA, ...) -> the same, for EVERY request of that type (a persistent refusal)
         self.events = collections.deque()   # kernel -> daemon messages waiting on the event socket
@@ -99,7 +103,8 @@ class FakeKernel:
         self._notify(rec)
         # the answer carries the port id of the request socket (never the process id here: the event socket took that one)
         self.port_seq = getattr(self, 'port_seq', 0) + 1
-        return xfrmdec.enc_ack(bytes(raw), rec['error'], port_id=(0xFFFFEFFF - self.port_seq % 4096) if self.port_ids_like_linux else 0)
+        return xfrmdec.enc_ack(bytes(raw), rec['error'], port_id=(0xFFFFEFFF - self.port_seq % 4096) if self.port_ids_like_linux else 0,
+                               noop_first=self.multipart_replies and self.port_seq % 3 == 0)
 
     def _notify(self, rec):
         if W.cur is not None and W.cur.step_nl is not None:
@@ -203,6 +208,12 @@ class _UdpSock:
         k = ep.sendto_calls
         ep.sendto_calls += 1
         err = ep.sendto_faults.get(k)
+        if err is None:
+            # a destination whose transmissions fail persistently (link down, a queue that never drains)
+            err = ep.sendto_persistent.get(str(dst[0]))
+        ep.step_sendto_calls += 1
+        if ep.step_sendto_calls > SENDTO_SPIN:
+            raise SelectSpin(f'sendto() called {ep.step_sendto_calls} times within one loop turn (last destination {dst[0]}): the loop never goes back to select()')
         if err is not None:
             ep.step_faults.append(('sendto', k, err))
             raise OSError(err, 'injected sendto failure')
@@ -275,6 +286,18 @@ _sock_shim = _SockShim()
 
 class SelectSpin(BaseException):
     """The loop keeps calling select() with an argument the real select() refuses: it would spin for ever without reading a socket or running a timer."""
+
+
+class TurnCpu(SelectSpin):
+    """One loop turn used more CPU time than any turn of a working daemon could (work hidden inside one call into C code executes no Python line)."""
+
+
+SENDTO_SPIN = 20000
+TURN_CPU_S = float(os.environ.get('VERIF_TURN_CPU_S', '40'))
+
+
+def _on_turn_alarm(signum, frame):
+    raise TurnCpu(f'one loop turn used more than {TURN_CPU_S:.0f} s of CPU time without coming back to select()')
 
 
 def _select_shim(rlist, wlist, xlist, timeout=None):
@@ -510,6 +533,8 @@ class Endpoint:
         self.select_calls = 0
         self.sendto_calls = 0
         self.sendto_faults = {}
+        self.sendto_persistent = {}
+        self.step_sendto_calls = 0
 
     def restart(self, confdict=None):
         """Drop the controller (crash) and build a new one on the same kernel (optionally with an edited configuration)."""
@@ -560,6 +585,13 @@ class Endpoint:
         W.handler_log = []
         prev, W.cur = W.cur, self
         rec.exc, rec.died = None, False
+        self.step_sendto_calls = 0
+        armed = False
+        if TURN_CPU_S > 0 and threading.current_thread() is threading.main_thread() and _signal.getitimer(_signal.ITIMER_VIRTUAL)[0] == 0:
+            # CPU time (not wall clock) of THIS process: a loaded machine does not shorten it. Not armed inside somebody else's alarm
+            prev_handler = _signal.signal(_signal.SIGVTALRM, _on_turn_alarm)
+            _signal.setitimer(_signal.ITIMER_VIRTUAL, TURN_CPU_S)
+            armed = True
         try:
             if self.sim.direct_dispatch and udp is not None and not control and xfrm_event is None:
                 # entry-point granularity: IkeSaController.dispatch_message alone, without the timer sweeps of the loop
@@ -580,6 +612,9 @@ class Endpoint:
         except (Exception, SystemExit, SelectSpin) as ex:     # the daemon would have terminated (or spun for ever) here
             rec.died, rec.exc = True, ex
         finally:
+            if armed:
+                _signal.setitimer(_signal.ITIMER_VIRTUAL, 0)
+                _signal.signal(_signal.SIGVTALRM, prev_handler if prev_handler is not None else _signal.SIG_DFL)
             W.cur = prev
         rec.sent, rec.nl, rec.handlers, rec.routed = self.outbox, self.step_nl, W.handler_log, self.step_routed
         rec.state_errors, rec.internal, rec.escapes, rec.dh = self.step_state_errors, self.step_internal, self.step_escapes, self.step_dh
@@ -709,8 +744,9 @@ class Sim:
                'sport_mask': 0xFFFF, 'dport_mask': 0xFFFF, 'prefixlen_s': plen, 'prefixlen_d': plen, 'proto': ipp}
         idx = (pc.index if index is None else index)
         ipsec = 50 if int(pc.proposal.protocol_id) == 3 else 51
+        self.acquire_n = getattr(self, 'acquire_n', 0) + 1
         ev = xfrmdec.enc_acquire(str(ike_conf.peer_addr), str(ike_conf.my_addr), sel, (idx << 3) | 1, proto=ipsec,
-                                 family=fam, mode=int(pc.mode))
+                                 family=fam, mode=int(pc.mode), attr_order=('tmpl-first', 'tmpl-last', 'tmpl-middle')[self.acquire_n % 3])
         return ep.step('acquire', xfrm_event=ev)
 
     def expire(self, ep, spi, hard, daddr=None, proto=50, family=_socket.AF_INET):
